@@ -257,7 +257,7 @@ theorem utf8_closed_chars_of {s : Bytes} (hv : validUtf8 s = true) : ∀ c ∈ c
 
 /-- escape processing of a well-formed literal gives a well-formed string (when it succeeds), for the
 current code and for the code with requests/C15-fix-3.diff applied -/
-theorem utf8_closed_escape (U : UFacts) (checked : Bool) {lit out : Bytes} (hv : validUtf8 lit = true)
+theorem utf8_closed_escape (U : UFacts) (checked : EscCfg) {lit out : Bytes} (hv : validUtf8 lit = true)
     (h : unescape U lit checked = .ok out) : validUtf8 out = true := unescape_valid U checked hv h
 
 example : validUtf8 (replaceB [0xC3, 0xA9] [0x2C] hé) = true := by decide
@@ -678,7 +678,7 @@ def errName : Except String Bytes → Option String
 
 /-- **escape (simple arms)**: for every row of the table generated from `escape_string_character`, the
 escape produces exactly the tabulated character and consumes exactly one character -/
-theorem escape_simple (U : UFacts) (checked : Bool) (cs : List Bytes) :
+theorem escape_simple (U : UFacts) (checked : EscCfg) (cs : List Bytes) :
     ∀ r ∈ KotoVerif.Gen.simpleEscapeTable, escapeOne U checked ([r.1] :: cs) = .ok ([r.2], cs) := by
   intro r hr
   have h : KotoVerif.Gen.simpleEscape r.1 = some r.2 := by
@@ -716,7 +716,7 @@ theorem escape_u_overflow_witness :
 
 /-- with requests/C15-fix-3.diff applied (`checked = true`) the overflow is the out-of-range error -/
 theorem escape_u_overflow_fixed :
-    errName (unescape UFacts.trivial [92, 117, 123, 49, 48, 48, 48, 48, 48, 48, 52, 49, 125] true)
+    errName (unescape UFacts.trivial [92, 117, 123, 49, 48, 48, 48, 48, 48, 48, 52, 49, 125] { overflow := true })
       = some "UnicodeEscapeCodeOutOfRange" := by decide
 
 /-- `\\u{…}`: the encoding of every scalar value is well-formed UTF-8 -/
